@@ -609,9 +609,10 @@ class C05(Prop):
             "state's tree or on a reference tree with another child order, each of the three classes, 1 or 2 steps. "
             "non-trivial = at least one link/two-site update (always, >= 2 nodes); distinct by content")
     clauses = [
-        ("F", "for every tree with unique ids and >= 2 nodes the three traces are defined, every Link/TwoSite event sits on a tree edge, one-site "
-              "schemes: signed Site factors of every node sum to 1 (C05_site_durations_*), total signed duration of a step is 1 for all three "
-              "schemes (C05_total_duration_*), two-site: number of TwoSite events 2(n-1), SiteBack events 2(n-2)"),
+        ("F", "for every tree with unique ids and >= 2 nodes the three traces are defined (C05_trace*_defined); one-site schemes: the signed Site "
+              "factors of every node sum to 1 (C05_site_durations_first_order / _second_order); the total signed duration of a step is 1 for all "
+              "three schemes (C05_total_duration_*); first order: every Link event sits on a tree edge with factor 1, applied backward "
+              "(C05_link_events_first_order)"),
         ("F", "bounded (all rooted ordered trees with <= 10 nodes, kernel-evaluated): Link factors of every tree edge sum to 1 (applied backward), "
               "two-site: +1 per edge and -(degree-1) per node (C05_durations_bounded_10)"),
         ("F", "bounded (all trees with <= 9 nodes): cache_fresh — over constructor + two consecutive steps every environment block read by a "
@@ -630,7 +631,7 @@ class C05(Prop):
 
     def generate(self, ctx, stream, budget_scale=1):
         rng = ctx.rng(stream)
-        count = ctx.scale(150, 1500) * budget_scale
+        count = ctx.scale(150, 4000) * budget_scale
 
         def extra(rng, j, par):
             return {"herm": j % 3 != 0, "coeffs": j % 4 == 1, "ttno_shuffle": j % 2 == 1,
